@@ -265,7 +265,7 @@ def _operator_table(P, R):
             continue
         rets = []
         for conds, ret in arm:
-            rs = strip(ret) if ret else ("none",)
+            rs = strip(A.beta_reduce(P, ret)) if ret else ("none",)    # `compare(left, right, |l, r| l > r)` reads as `l > r`
             rets.append(rs)
         nonconst = [r for r in rets if not (r[0] == "const" and isinstance(r[2], bool))]
         consts = set(r[2] for r in rets if r[0] == "const" and isinstance(r[2], bool))
